@@ -817,7 +817,9 @@ class DataFrameSchemaBackend(PandasSchemaBackend):
             )
 
         failed = check_obj.columns[check_obj.columns.duplicated()]
-        if failed.any():
+        # Index.any() tests the truth of the labels themselves (and is not
+        # defined for MultiIndex columns)
+        if len(failed) > 0:
             passed = False
             message = (
                 "dataframe contains multiple columns with label(s): "
